@@ -71,7 +71,7 @@ func fillAny(nm string, d int) any {
 func smallInt(nm string) int {
 	v := vrt.Int(nm)
 	if !vrt.Thorough() {
-		vrt.Assume(vrt.And(v >= -64, v < 64))
+		vrt.Assume(vrt.And(v >= -100, v < 100))
 	}
 	return v
 }
